@@ -1223,6 +1223,16 @@ func (e *Env) evalCall(n *ast.CallExpr) Val {
 			return boolVal(e.r.bind(e.st, sx("select", e.st.heap["B"], cell), fname, "Bool"))
 		}
 		return intVal(e.r.bind(e.st, sx("select", e.st.heap["I"], cell), fname, "Int"), nil)
+	case "oncedone":
+		// oncedone(x.once): the sync.Once stored in that field has run its function (ghost cell 910)
+		if !need(1) {
+			return boolVal("false")
+		}
+		ref, _, _ := e.evalAddr(n.Args[0])
+		if e.err != nil {
+			return boolVal("false")
+		}
+		return boolVal(sx("select", e.st.heap["B"], sx("fld", ref, "910")))
 	case "maphas":
 		m, k := arg(0), arg(1)
 		return boolVal(sx("select", e.st.heap["B"], sx("elt", m.S, e.r.mapKey(k))))
